@@ -60,11 +60,19 @@ def discharge(id: str, hyps: Sequence, goal, *, backends=("z3", "gb"), kind="pro
             v.reason = f"{v.reason} (cex builder failed: {e})"
     reason = v.reason
     if v.status == "refuted" and not reason:
-        reason = f"{v.backend}: sat -- counter-model found for goal {str(goal)[:300]}"
+        reason = f"{v.backend}: sat -- counter-model found for goal {short(goal, 300)}"
     return ob(id, v.status, kind=kind, engine=engine, backend=v.backend, secs=v.secs, reason=reason,
               cex=cex, model=v.model if v.status == "refuted" else None,
-              sample=sample if sample is not None else {"goal": str(goal)[:200], "n_hyps": len(hyps)},
+              sample=sample if sample is not None else {"goal": short(goal), "n_hyps": len(hyps)},
               expect=expect)
+
+
+def short(e, n=200):
+    """bounded textual form of a term (the Python pretty printer of z3 is very slow on large terms)"""
+    try:
+        return e.sexpr()[:n]
+    except Exception:
+        return str(e)[:n]
 
 
 def nice_model(hyps, goal, nice_vars, timeout_ms=4000):
@@ -134,7 +142,7 @@ class Proof:
 def _proof_have_cert(self, name, goal, combos, optional=False):
     """Step justified by an explicit linear-combination certificate over hypotheses/facts."""
     v = B.cert_check(self.all_hyps(), goal, combos)
-    o = _as_ob(f"{self.prefix}/{name}", v, self.engine, sample={"goal": str(goal)[:200], "certificate_terms": len(combos)})
+    o = _as_ob(f"{self.prefix}/{name}", v, self.engine, sample={"goal": short(goal), "certificate_terms": len(combos)})
     if os.environ.get("VERIF_DEBUG"):
         print(f"   have {name}: {o['status']} cert {o['secs']:.2f}s {str(o.get('reason',''))[:100]}", flush=True)
     if o["status"] == "discharged":
